@@ -168,7 +168,7 @@ pub fn corrupt(r: &mut Rng, t: &[u8]) -> Vec<u8> {
 // JSONPath: (text, canonical AST) pairs
 
 const NAMES: &[&str] = &["a", "b", "ab", "k1", "store", "book", "price", "_x", "测试", "a_b", "phones", "type"];
-const QNAMES: &[&str] = &["a", "", " $price", "a b", "x.y", "k\"q", "back\\slash", "é", "[0]", "last", "to", "😀"];
+const QNAMES: &[&str] = &["a", "", " $price", "a b", "x.y", "k\"q", "back\\slash", "é", "[0]", "last", "to", "😀", "cafe\u{301}", "नमस्ते", "a\u{200d}b", "x\u{7f}y", "\u{80}c", "a\u{ad}b", "ไทย"];
 
 fn sp(r: &mut Rng) -> &'static str {
     *r.pick(&["", "", "", " ", "  ", "\t", "\n"])
